@@ -388,13 +388,7 @@ func (w *world) mainC05() {
 				w.violate("C05", "duplicate-id", fmt.Sprintf("requests %d and %d both have ID %s", prev, r.id, id))
 			}
 			ids[id] = r.id
-			if i := strings.IndexByte(id, '-'); i < 0 {
-				w.violate("C05", "id-format", "ID "+id)
-			} else if prefix == "" {
-				prefix = id[:i]
-			} else if prefix != id[:i] {
-				w.violate("C05", "id-format", fmt.Sprintf("ID prefix changed within one Mux: %s vs %s", prefix, id[:i]))
-			}
+			_ = prefix // the ID's spelling is not part of the property: only uniqueness and constancy are checked
 		}
 	}
 }
